@@ -1428,6 +1428,16 @@ closerLoop:
 				state.remove(closer)
 				state.stack = deleteDelimiterStack(state.stack, currentPosition, currentPosition+1)
 			}
+
+			// Entries have been removed from the stack,
+			// so lower bounds above the current position would refer to entries that moved down.
+			// Everything at or above the current position is yet to be examined,
+			// so the current position is a valid lower bound in their place.
+			for i := range openersBottom {
+				if openersBottom[i] > currentPosition {
+					openersBottom[i] = currentPosition
+				}
+			}
 		} else {
 			// We know that there are no openers for this kind of closer up to and including this point,
 			// so put a lower bound on future searches.
@@ -1877,8 +1887,14 @@ type delimiterStackElement struct {
 	node  *Inline
 }
 
-const openersBottomCount = 9
+const openersBottomCount = 14
 
+// openersBottomIndex returns the index into the lower bounds kept by processEmphasis
+// for a closing delimiter:
+// one for each combination of delimiter character,
+// whether the closer can also open emphasis,
+// and its length modulo 3,
+// because those are what the matching rules look at.
 func (elem delimiterStackElement) openersBottomIndex() int {
 	switch elem.typ {
 	case inlineDelimiterStar:
@@ -1888,11 +1904,15 @@ func (elem delimiterStackElement) openersBottomIndex() int {
 			return 3 + elem.n%3
 		}
 	case inlineDelimiterUnderscore:
-		return 6
+		if elem.flags&openerFlag == 0 {
+			return 6 + elem.n%3
+		} else {
+			return 9 + elem.n%3
+		}
 	case inlineDelimiterLink:
-		return 7
+		return 12
 	case inlineDelimiterImage:
-		return 8
+		return 13
 	default:
 		panic("unreachable")
 	}
